@@ -173,6 +173,149 @@ fn entry_tasks(r: &mut Rng) -> Vec<Task> {
     v
 }
 
+/// A cipher in mid-stream and a hasher in mid-message, passed from one thread to the next.
+struct HandOff {
+    ty: &'static str,
+    layout: crate::refmodel::chacha::Layout,
+    dr: u32,
+    key: [u8; 32],
+    nonce: Vec<u8>,
+    pos: u128,
+    ci: Box<dyn api::DynCipher + Send>,
+    hid: HashId,
+    hh: Box<dyn api::DynHash + Send>,
+    fed: Vec<u8>,
+}
+
+/// Hand-off: instances that are in the middle of their stream / message on one thread are
+/// continued by the next thread, for a few rounds (the types are Send: nothing a thread keeps
+/// for itself may be part of an instance's state). Fresh threads; in a *symmetric* trial every
+/// worker serves the same kind of request at the same position with its own key, as the workers
+/// of a pool do.
+/// A barrier a peer may fail to reach (if it panicked): waiting gives up after 20 s, so the
+/// others finish and report instead of hanging until the watchdog fires.
+struct SoftBarrier {
+    arrived: AtomicU64,
+    n: u64,
+}
+impl SoftBarrier {
+    fn wait(&self, generation: u64) -> bool {
+        self.arrived.fetch_add(1, Ordering::SeqCst);
+        let t0 = std::time::Instant::now();
+        while self.arrived.load(Ordering::SeqCst) < self.n * (generation + 1) {
+            if t0.elapsed().as_secs() >= 20 {
+                return false;
+            }
+            std::thread::yield_now();
+        }
+        true
+    }
+}
+
+fn trial_handoff(cx: &mut Ctx, nthreads: usize, seed: u64) {
+    let symmetric = seed & 1 == 0;
+    let rounds = 1 + (seed >> 1) as usize % 3;
+    cx.log.class(&format!("hand-off/{}/rounds={}", if symmetric { "symmetric-workers" } else { "mixed" }, rounds));
+    let slots: Arc<Mutex<Vec<Option<HandOff>>>> = Arc::new(Mutex::new((0..nthreads).map(|_| None).collect()));
+    let barrier = Arc::new(SoftBarrier { arrived: AtomicU64::new(0), n: nthreads as u64 });
+    let errors: Arc<Mutex<Vec<String>>> = Arc::new(Mutex::new(Vec::new()));
+    let mut hs = Vec::new();
+    for t in 0..nthreads {
+        let (slots, barrier, errors) = (slots.clone(), barrier.clone(), errors.clone());
+        hs.push(std::thread::spawn(move || {
+            let res = guarded(|| -> Result<(), String> {
+                // what all workers have in common in a symmetric trial comes from `seed` alone
+                let mut cr = Rng::new(seed ^ 0x4a4d);
+                let mut hr = Rng::new(mix(&[seed, t as u64, 0x4a4d]));
+                let ty = api::CIPHERS[if symmetric { cr.below(7) } else { hr.below(7) } as usize];
+                let (layout, dr, nlen) = api::cipher_params(ty);
+                let (key, nonce) = super::key_nonce(hr.u64(), nlen);
+                let cpos = [0u64, 0, 64, 200][cr.below(4) as usize] as u128;
+                let cn = 1 + cr.below(255) as usize;
+                let (pos, n1) = if symmetric { (cpos, cn) } else { (hr.below(1 << 20) as u128, 1 + hr.below(255) as usize) };
+                // a worker that has found a problem keeps taking part in the barriers
+                let mut err: Option<String> = None;
+                let mut ci = api::new_cipher(ty, &key, &nonce);
+                if pos != 0 && ci.try_seek(api::SeekTy::U64, pos, false).is_err() {
+                    err.get_or_insert("seek failed".to_string());
+                }
+                let mut d = vec![0u8; n1];
+                if ci.try_apply(&mut d).is_err() {
+                    err.get_or_insert("apply failed".to_string());
+                }
+                let hid = if cfg!(miri) { HashId { fam: Fam::Blake, bits: 256, out: 32 } } else { *hr.pick(&api::hashes15(32)) };
+                let mut hh = hid.new();
+                let nf = 1 + hr.below(200) as usize;
+                let first = hr.bytes(nf);
+                hh.update(&first);
+                let mut mine = Some(HandOff { ty, layout, dr, key, nonce, pos: pos + n1 as u128, ci, hid, hh, fed: first });
+                for round in 0..rounds {
+                    slots.lock().unwrap()[t] = mine.take();
+                    barrier.wait(2 * round as u64);
+                    let got = slots.lock().unwrap()[(t + 1 + round) % nthreads].take();
+                    barrier.wait(2 * round as u64 + 1);
+                    let mut g = match got {
+                        Some(g) => g,
+                        None => {
+                            err.get_or_insert("nothing was handed over".to_string());
+                            continue;
+                        }
+                    };
+                    let n2 = if symmetric { 1 + cr.below(300) as usize } else { 1 + hr.below(700) as usize };
+                    let data = hr.bytes(n2);
+                    let mut d = data.clone();
+                    if g.ci.try_apply(&mut d).is_err() {
+                        err.get_or_insert("apply failed".to_string());
+                    }
+                    let mut e = data.clone();
+                    RefStream::new(g.layout, g.dr, &g.key, &g.nonce).xor(g.pos, &mut e);
+                    if d != e {
+                        err.get_or_insert(format!("{} stream continued on another thread ({} bytes at {}, round {}) differs from the reference", g.ty, n2, g.pos, round));
+                    }
+                    g.pos += n2 as u128;
+                    let nm = hr.below(300) as usize;
+                    let more = hr.bytes(nm);
+                    g.hh.update(&more);
+                    g.fed.extend_from_slice(&more);
+                    mine = Some(g);
+                }
+                if let Some(e) = err {
+                    return Err(e);
+                }
+                let g = match mine.take() {
+                    Some(g) => g,
+                    None => return Err("nothing was handed over".to_string()),
+                };
+                // under Miri the reference models are too slow: compare with a fresh one-thread digest
+                let exp = if cfg!(miri) { g.hid.oneshot(&g.fed) } else { g.hid.reference(&g.fed) };
+                if g.hh.finalize_box() != exp {
+                    return Err(format!("{} message continued on other threads gives a wrong digest", g.hid.name()));
+                }
+                Ok(())
+            });
+            match res {
+                Ok(Ok(())) => {}
+                Ok(Err(m)) => errors.lock().unwrap().push(format!("hand-off|instance-moved-between-threads|{}", m)),
+                Err(p) => errors.lock().unwrap().push(format!("hand-off-panic|instance-moved-between-threads|{}", p)),
+            }
+        }));
+    }
+    let mut join_failed = false;
+    for h in hs {
+        join_failed |= h.join().is_err();
+    }
+    if join_failed {
+        cx.log.violation("C18|thread-died", "a worker thread terminated abnormally");
+    }
+    cx.log.eval((nthreads * rounds * 2) as u64);
+    cx.log.event("instances_handed_to_another_thread", (2 * nthreads * rounds) as u64);
+    for e in errors.lock().unwrap().iter() {
+        let mut p = e.splitn(3, '|');
+        let (kind, entry, msg) = (p.next().unwrap(), p.next().unwrap(), p.next().unwrap_or(""));
+        cx.log.violation(&format!("C18|{}|{}|{}", api::profile(), kind, entry), msg);
+    }
+}
+
 fn trial_threads(cx: &mut Ctx, nthreads: usize, nmixed: usize, seed: u64) {
     let mut r = Rng::new(seed);
     let tasks = Arc::new(entry_tasks(&mut r));
@@ -383,6 +526,15 @@ pub fn run(cx: &mut Ctx) {
         cx.log.announce(&d);
         cx.log.class(&format!("threads={}", nthreads));
         trial_threads(cx, nthreads, nmixed, seed);
+        // then, on fresh threads, instances handed from worker to worker
+        let nh = if cfg!(miri) { 1 } else { 4 };
+        for i in 0..nh {
+            let hseed = mix(&[seed, 0x4a4d, i]);
+            let nt = if cfg!(miri) { 2 } else { [2usize, 3, 4, 8][(hseed >> 8) as usize % 4] };
+            cx.log.announce(&format!("k=handoff seed={} threads={}", hseed, nt));
+            cx.log.nontrivial();
+            trial_handoff(cx, nt, hseed);
+        }
     }
     if part != "threads" {
         let n = if cfg!(miri) { 1 } else { 6 };
@@ -397,6 +549,9 @@ pub fn replay(cx: &mut Ctx, desc: &str) {
     if d.str("k") == "threads" {
         cx.log.announce(desc);
         trial_threads(cx, d.u64("threads") as usize, d.u64("mixed") as usize, d.u64("seed"));
+    } else if d.str("k") == "handoff" {
+        cx.log.announce(desc);
+        trial_handoff(cx, d.u64("threads") as usize, d.u64("seed"));
     } else {
         trial_interleave(cx, d.u64("seed"));
     }
